@@ -255,6 +255,64 @@ fn crossing_case(fail: Fail, guard: Guard, importer: &'static str) -> Case {
     c
 }
 
+/// control comes back into a module from a fiber whose code lives in another module (the fiber runs to
+/// its end: M-eval has no yield); straight afterwards the caller uses its own globals
+fn fibers_from_other_modules() -> Vec<Case> {
+    let mut out = Vec::new();
+    for importer in ["main", "a"] {
+        for variant in 0..3 {
+            let t_body = vec![
+                print_stmt(s("load t")),
+                var_stmt("name", s("t name")),
+                fn_stmt(func("make", &["v"], vec![st(StmtKind::Return(Some(invoke(var("Fiber"), "new", vec![lambda_block(&[], vec![expr_stmt(assign("name", bin(BinOp::Add, var("name"), s("+")))), st(StmtKind::Return(Some(bin(BinOp::Add, var("name"), var("v")))))])]))))])),
+                var_stmt("ready", invoke(var("Fiber"), "new", vec![lambda_expr(&[], bin(BinOp::Add, var("name"), s(" from ready")))])),
+            ];
+            let fiber_expr = match variant {
+                0 => invoke(var("t"), "make", vec![s(" made")]),
+                1 => get(var("t"), "ready"),
+                _ => invoke(var("Fiber"), "new", vec![get(var("t"), "f_plain")]),
+            };
+            let mut t_body = t_body;
+            t_body.push(fn_stmt(func("f_plain", &[], vec![st(StmtKind::Return(Some(bin(BinOp::Add, var("name"), s(" plain")))))])));
+            let body = vec![
+                print_stmt(s(&format!("load {}", importer))),
+                var_stmt("name", s(&format!("{} name", importer))),
+                st(StmtKind::Import("t".into(), None)),
+                var_stmt("fib", fiber_expr),
+                // the result of call() combined with an own global, with no call in between
+                var_stmt("got", bin(BinOp::Add, invoke(var("fib"), "call", vec![]), bin(BinOp::Add, s(" / "), var("name")))),
+                print_stmt(var("got")),
+                var_stmt("after", bin(BinOp::Add, var("name"), s(" after"))),
+                fn_stmt(func("describe", &[], vec![st(StmtKind::Return(Some(bin(BinOp::Add, bin(BinOp::Add, var("name"), s("/")), var("after")))))])),
+                expr_stmt(assign("name", s(&format!("{} renamed", importer)))),
+                print_stmt(call(var("describe"), vec![])),
+                print_stmt(get(var("t"), "name")),
+                st(StmtKind::Try(vec![print_stmt(get(var("t"), "after"))], Some(("e".into(), vec![print_stmt(call(var("type"), vec![var("e")]))])), None)),
+                print_stmt(invoke(var("fib"), "has_finished", vec![])),
+            ];
+            let mut modules = BTreeMap::new();
+            modules.insert("t".to_string(), ModuleSource { program: Some(t_body), compile_error: false });
+            let main = if importer == "main" {
+                body
+            } else {
+                modules.insert(importer.to_string(), ModuleSource { program: Some(body), compile_error: false });
+                vec![
+                    var_stmt("name", s("main name")),
+                    st(StmtKind::Import(importer.into(), None)),
+                    print_stmt(get(var(importer), "name")),
+                    print_stmt(get(var(importer), "after")),
+                    print_stmt(invoke(var(importer), "describe", vec![])),
+                    print_stmt(var("name")),
+                ]
+            };
+            let mut c = Case::new("fiber_from_another_module", main);
+            c.modules = modules;
+            out.push(c);
+        }
+    }
+    out
+}
+
 fn crossings() -> Vec<Case> {
     let mut out = Vec::new();
     for fail in [Fail::Throw, Fail::Missing, Fail::Uncompilable, Fail::Cycle, Fail::Deep, Fail::FnThrow, Fail::FnImport, Fail::FnFinally] {
@@ -272,7 +330,7 @@ fn crossings() -> Vec<Case> {
 
 pub fn cases_for_c01(thorough: bool) -> Vec<Case> {
     let graphs = (0..(1usize << 12)).filter(|b| (b >> 9) != 0 && (thorough || b % 16 == 5)).map(graph_case);
-    placements().into_iter().chain(crossings()).chain(graphs).collect()
+    placements().into_iter().chain(crossings()).chain(fibers_from_other_modules()).chain(graphs).collect()
 }
 
 pub fn run(ctx: &Ctx) -> Report {
@@ -282,7 +340,7 @@ pub fn run(ctx: &Ctx) -> Report {
     // quick: every graph whose module-to-module part is arbitrary and main imports a non-empty subset
     let total = 1usize << 12;
     let graphs = (0..total).filter(move |b| thorough || (b >> 9) != 0).map(graph_case);
-    let cases = placements().into_iter().chain(crossings()).chain(graphs);
+    let cases = placements().into_iter().chain(crossings()).chain(fibers_from_other_modules()).chain(graphs);
     let hooks = Hooks {
         attribute: &|_c, _m, _o, _mm| None,
         nontrivial: &|c, m| c.modules.len() >= 2 && m.out.iter().filter(|l| l.starts_with("load ")).count() >= 2 || m.out.iter().any(|l| l.contains("failed")) || matches!(m.outcome, Outcome::Uncaught(_)),
@@ -292,7 +350,7 @@ pub fn run(ctx: &Ctx) -> Report {
     mcheck::fill_report(
         &mut report,
         &stats,
-        "every import graph over {main, a, b, c}: each of the 6 module-to-module edges, 3 self-loops and 3 edges from main independently present or absent (4096 graphs; the quick tier skips those where main imports nothing); every import inside a module sits in its own try/catch and is followed by a use; every module prints when its body runs, defines the same global names, and reads the built-ins; main reads, writes and calls through each module object, imports it again under an alias and compares identity, and probes that nothing leaked. Plus placements: import inside a function called 0/1/2 times, missing and uncompilable modules (caught, uncaught, aliased), a path with a directory, a three-module cycle. Plus exceptions that cross module frames: a module body that throws / imports a missing, an uncompilable, its importing (cycle) or a throwing module without a handler, or a function of another module that throws / fails an import / throws through its own finally; caught in the importer (main or a module) directly, through a function, or after a finally block that itself uses globals; straight after the handler the importer reads, defines and assigns its own globals and the check confirms where they landed. non-trivial = at least two module bodies ran, or an import failed.",
+        "every import graph over {main, a, b, c}: each of the 6 module-to-module edges, 3 self-loops and 3 edges from main independently present or absent (4096 graphs; the quick tier skips those where main imports nothing); every import inside a module sits in its own try/catch and is followed by a use; every module prints when its body runs, defines the same global names, and reads the built-ins; main reads, writes and calls through each module object, imports it again under an alias and compares identity, and probes that nothing leaked. Plus placements: import inside a function called 0/1/2 times, missing and uncompilable modules (caught, uncaught, aliased), a path with a directory, a three-module cycle. Plus exceptions that cross module frames: a module body that throws / imports a missing, an uncompilable, its importing (cycle) or a throwing module without a handler, or a function of another module that throws / fails an import / throws through its own finally; caught in the importer (main or a module) directly, through a function, or after a finally block that itself uses globals; straight after the handler the importer reads, defines and assigns its own globals and the check confirms where they landed. Plus fibers whose code lives in another module (made by a function of that module, stored in it, or built here from its function), run to their end from main or from a module that then uses its own globals at once. non-trivial = at least two module bodies ran, or an import failed.",
         json!({"modules": 4, "graphs": total}),
     );
     report.assumptions = vec!["importing a module again after its body threw is outside the property's statement and outside the alphabet (X)".into()];
